@@ -250,18 +250,21 @@ impl ServerInner {
             } => {
                 self.stopping = true;
 
-                // Signal accept thread to stop.
-                // Signal is non-blocking; we wait for thread to stop later.
-                self.waker_queue.wake(WakerInterest::Stop);
-                #[cfg(actix_net_verif)]
-                crate::verif::failpoint("server:stop-between-accept-and-workers");
-
-                // send stop signal to workers
+                // Send stop signal to workers first. When the accept thread exits it drops the
+                // connection channels of the workers, and a worker that finds its channel closed
+                // without having seen a stop message exits at once, dropping the connections it
+                // has in progress even for a graceful stop.
                 let workers_stop = self
                     .worker_handles
                     .iter()
                     .map(|worker| worker.stop(graceful))
                     .collect::<Vec<_>>();
+                #[cfg(actix_net_verif)]
+                crate::verif::failpoint("server:stop-between-accept-and-workers");
+
+                // Signal accept thread to stop.
+                // Signal is non-blocking; we wait for thread to stop later.
+                self.waker_queue.wake(WakerInterest::Stop);
 
                 if graceful {
                     // wait for all workers to shut down
